@@ -207,6 +207,16 @@ def main(tier):
     outnames = ['m', 'm.', 'a.b.c', 'x', 'x.c', 'generated_module_source', 'n' * 23, 'n' * 24, 'n' * 200 + '.c', 'n' * 250]
     for n, d in hb[1:2]:
         jobs.append((n, d, [['OUT=' + on] + extra for on in outnames for extra in ([], ['-f', '1', '-t', '2'])], w2c2))
+    # every valid control-flow body of the C03 enumerations (plain and in dead-code / value-carrying contexts), 2 000 functions per module
+    import enum_cf, c03
+    S, p_, l_, r_ = enum_cf.sigma_full()
+    in1 = [(0, 0)]
+    for b in c03.batches_of('cf-full', S, p_, [(1, 'i'), (1, 'I')], r_, 3 if tier == 'quick' else 4, in1, [('env', 'mark', 'i', 'i')]):
+        jobs.append(('all valid bodies <= N over the 33-symbol alphabet (batch of %d)' % len(b.cases), b.wasm, [[], ['-g', '-f', '7', '-t', '2']], w2c2))
+    Sm, pm, lm, rm = enum_cf.sigma_mid()
+    for cname, pre, suf in enum_cf.contexts():
+        for b in c03.batches_of('cf-ctx', Sm, pm, [], rm, 3 if tier == 'quick' else 4, in1, [('env', 'mark', 'i', 'i')], False, (pre, suf)):
+            jobs.append(('all valid fillings of context %s (batch of %d)' % (cname, len(b.cases)), b.wasm, [[]], w2c2))
     positions = ('export', 'import-module', 'import-field', 'name-section', 'partial-name-section', 'import-global')
     for nm in NAME_ALPHABET:
         for pos in positions:
@@ -287,7 +297,7 @@ def main(tier):
     chk.cov['valid_run_classes'] = classes
     chk.cov['prefix_runs'] = nprefix
     chk.cov['prefix_run_classes'] = pclasses
-    chk.cov['rule'] = ('(a) every valid module of the corpus (spec-suite modules, hand-built, name-stress: 20 names x 4 positions, size-stress: 5) x option sets '
+    chk.cov['rule'] = ('(a) every valid module of the corpus (spec-suite modules, all valid control-flow bodies of the C03 enumerations up to N = 3 (thorough 4) incl. the dead-code contexts, hand-built, name-stress: 20 names x 4 positions, size-stress: 5) x option sets '
                        '(8 representative sets each; the full 384-element option product on the hand-built modules; the hand-built modules with -r references that share all / some / no function bodies x split output; 10 output file names without / with odd extensions) must exit 0 without signal or sanitizer report; '
                        '(b) fault points = every proper prefix 0<k<len of every module <= 4 KiB (boundary +-2 for larger), modules with a name section also under -g (thorough: + -g -f 1 -t 2, -g -p -m), and every proper prefix used as the -r REFERENCE module next to the complete module: terminates, no sanitizer report, no '
                        'SIGSEGV/SIGBUS/SIGFPE/SIGILL; own abort()/assert on a truncated file is tolerated and counted. distinct_nontrivial = (module, k) whose '
